@@ -127,7 +127,7 @@ def expected(name, shape, r, c):
             body=r'''
     shape = %r
     o, hh = concrete_int(off, 0, 3), concrete_int(h, 1, 2)
-    me = NS(cell_nrow=[[1]])
+    me = NS.of(TableAttributes, cell_nrow=[[1]])
     for name in ATTRS + BORDERS + ["cell_vertical_justification", "cell_justification", "cell_height", "border_width",
                                    "border_color_left", "border_color_right", "border_color_top", "border_color_bottom"]:
         setattr(me, name, attr_value(name, shape))
@@ -183,7 +183,7 @@ def expected(name, shape, r, c):
     obs.append(prep_ob("O4.attribute_slicing", T))
     # O5: across page breaks, page row i carries the attributes of table row row_start + i
     obs.append(Ob(
-        oid="O5.page_binding", sig="h0: int, h1: int, first_hdr: bool, shape: int", pre=["1 <= h0 <= 3", "1 <= h1 <= 2", "0 <= shape <= 2"],
+        oid="O5.page_binding", sig="h0: int, h1: int, first_hdr: bool, shape: int", pre=["1 <= h0 <= 3", "1 <= h1 <= 2", "0 <= shape <= 3"],
         header=HDR9 + r'''
 from rtflite.encoding.unified_encoder import UnifiedRTFEncoder
 from rtflite.pagination.processor import PageFeatureProcessor
@@ -193,16 +193,19 @@ SIZE = [[6 + r, 10 + r] for r in range(NROW)]
 LEFT = [["single", ""], ["", "double"], ["dotted", ""], ["", ""], ["double", "single"]]
 BODIES = [rtf.RTFBody(text_format="b", text_font_size=9, border_left="single"),
           rtf.RTFBody(text_format=[["", "b"]], text_font_size=[[7, 8]], border_left=[["single", ""]]),
-          rtf.RTFBody(text_format=FMT, text_font_size=SIZE, border_left=LEFT)]
+          rtf.RTFBody(text_format=FMT, text_font_size=SIZE, border_left=LEFT),
+          rtf.RTFBody(text_format=FMT[:2], text_font_size=SIZE[:2], border_left=LEFT[:2])]     # a 2-row pattern recycled down the table
 def want(shape, name, r, c):
     if shape == 0:
         return {"text_format": "b", "text_font_size": 9, "border_left": "single"}[name]
     if shape == 1:
         return {"text_format": ["", "b"], "text_font_size": [7, 8], "border_left": ["single", ""]}[name][c]
+    if shape == 3:
+        r = r % 2
     return {"text_format": FMT, "text_font_size": SIZE, "border_left": LEFT}[name][r][c]
 ''', timeout=T,
         body=r'''
-    H0, H1, sh = concrete_int(h0, 1, 3), concrete_int(h1, 1, 2), concrete_int(shape, 0, 2)
+    H0, H1, sh = concrete_int(h0, 1, 3), concrete_int(h1, 1, 2), concrete_int(shape, 0, 3)
     body = BODIES[sh].model_copy(deep=True)
     full = FakeFrame({"a": ["a%d" % i for i in range(H0 + H1)], "b": ["b%d" % i for i in range(H0 + H1)]})
     pages = [NS(data=full.slice(0, H0), table_attrs=body, is_first_page=True, is_last_page=False, component_borders={}, row_start=0),
@@ -230,7 +233,7 @@ def want(shape, name, r, c):
                "rtflite.pagination.processor:PageFeatureProcessor._apply_pagination_borders"],
         stubs=["frames -> FakeFrame", "PageContext / document -> namespaces around a REAL RTFBody"],
         bounds="a 5x2 table on two pages of symbolic heights (1..3, 1..2); text_format, text_font_size and border_left given as scalar | "
-               "per-column vector | full matrix (symbolic choice)",
+               "per-column vector | full matrix | 2-row pattern recycled down the table (symbolic choice)",
         what="the attributes a page renders with bind page row i to the values specified for table row row_start + i: the binding does "
              "not depend on where the page break falls"))
     meta = {
